@@ -6,6 +6,14 @@ BASE = "cd /repo && /venv/bin/python -m pytest -ra -q -p no:cacheprovider --time
 TB = ("CPython 3.12 semantics; the check's own reference model (plain ints / stdlib / independent decoder); "
       "bounds stated in level_claimed.text; ICU 73 shared libraries found by ./run")
 CHECKS = {
+ "C01": dict(cat="model_checking", tech="exhaustive walk of the calendar transition system (state = calendar x day number) with counted structure invariants",
+   text="The calendar is a chain-shaped transition system; every state walked is converted day->date->day, through the public constructor, through ISO and back "
+        "(independent ISO date from datetime/civil-from-days), ordered against its predecessor, and month/year structure is counted along the walk. quick: month tables of "
+        "every year of all 19 calendars (complete), complete walk of Badi and Um Al Qura, boundary blocks and one seed-positioned 30000-day block per calendar, all "
+        "rejection cases per year; thorough: the complete chain of every calendar (about 70.8 M states), exhaustive.", ref="4/C01"),
+ "C02": dict(cat="model_checking", tech="exhaustive lock-step sweep against an independent implementation of the published calendar algorithms and datetime.date",
+   text="Every year and month of the 16 arithmetic calendar ids is compared with models/calref.py (independent fixed-day formulas: year start, leap flag, length, month starts/ends, "
+        "weekday); ISO is compared with datetime.date over all 3,652,059 ordinals in both directions; day-level lock-step walk on boundary blocks + one seed block (quick) or every day (thorough).", ref="4/C02"),
  "C19": dict(cat="model_checking", tech="explicit-state exploration of all operation sequences vs. reference model + preemption-bounded schedule exploration of real threads",
    text="Every FakeClock operation sequence up to depth 3 (quick) / 4 (thorough) over a 26-30 symbol alphabet is replayed on the real object "
         "and compared step by step with a now/auto-advance integer model; every schedule of 2-3 real threads x 1-2 operations within 2 preemptions "
